@@ -7,18 +7,6 @@ namespace BS.Render
 
 /-! ### the measure: total length of character data -/
 
-mutual
-def tlenN : Node → Nat
-  | .tag _ ks => tlenL ks
-  | .str c s =>
-    match strKind c s with
-    | .text t => t.length
-    | .special _ _ _ => 0
-def tlenL : List Node → Nat
-  | [] => 0
-  | n :: ns => tlenN n + tlenL ns
-end
-
 theorem tlenL_append : ∀ (a b : List Node), tlenL (a ++ b) = tlenL a + tlenL b
   | [], b => by simp [tlenL]
   | x :: xs, b => by simp [tlenL, tlenL_append xs b, Nat.add_assoc]
@@ -38,41 +26,6 @@ theorem tlenL_txt (p : PCfg) (ctx : Ctx) (hctx : CtxOK ctx) (b : List PStr) : tl
     simp [txt, tlenL, tlenN, this, flen]
 
 /-! ### counting the doctypes whose newline is not absorbed -/
-
-/-- does the run of text after a doctype keep its newline visible: in a preserve-whitespace context always, else as
-    soon as a chunk is not whitespace -/
-def brkText (p : PCfg) (after brk : Bool) (t : PStr) : Bool := brk || (after && !isSp p t)
-
-def owed (after brk : Bool) : Nat := if after && brk then 1 else 0
-
-mutual
-/-- growth inside a node (its children are closed at its end tag) -/
-def growN (p : PCfg) (ctx : Ctx) : Node → Nat
-  | .tag i ks =>
-    let r := growL p (pushCtx p ctx (fullName i)) false false ks
-    r.1 + owed r.2.1 r.2.2
-  | .str _ _ => 0
-/-- growth over a run of siblings: (flushes that grew, pending doctype newline?, its run already visible?) -/
-def growL (p : PCfg) (ctx : Ctx) : Bool → Bool → List Node → Nat × Bool × Bool
-  | after, brk, [] => (0, after, brk)
-  | after, brk, n :: ns =>
-    match n with
-    | .tag i ks =>
-      let r := growL p ctx false false ns
-      (owed after brk + growN p ctx (.tag i ks) + r.1, r.2)
-    | .str c s =>
-      match strKind c s with
-      | .text t =>
-        if t.isEmpty then growL p ctx after brk ns else growL p ctx after (brkText p after brk t) ns
-      | .special _ _ nl =>
-        let r := growL p ctx nl (nl && ctx.pres) ns
-        (owed after brk + r.1, r.2)
-end
-
-/-- the total growth of a closed forest -/
-def grow (p : PCfg) (ctx : Ctx) (ds : List Node) : Nat :=
-  let r := growL p ctx false false ds
-  r.1 + owed r.2.1 r.2.2
 
 /-! ### an unstable forest grows -/
 
